@@ -654,9 +654,10 @@ func (e *c13Env) accesses(p c13Page, r *rand.Rand) []c13Access {
 		}
 		seen[t.k] = true
 		k := t.k
-		// which loader brings the faulted page in (mirror): a data page after a seek -> readPage; the
-		// dictionary page -> read in sequence when the seek targets data page 0 of a fresh reader
-		// (SeekToRow does not move), lazily through readDictionary otherwise
+		// which loader path brings the faulted page in (mirror): a data page after a seek -> afterSeek;
+		// the dictionary page -> read in sequence when the seek targets data page 0 of a fresh reader
+		// (SeekToRow does not move), lazily through readDictionary otherwise (since 5000be7 all of
+		// them end in readPage and verify; the path names keep the comparison per route)
 		model, modelNoIndex := "afterSeek", "afterSeek"
 		if p.Kind == "dict" {
 			model, modelNoIndex = "lazyDictionary", "lazyDictionary"
@@ -723,7 +724,9 @@ func (e *c13Env) baseline(a c13Access, p c13Page) (any, error) {
 	return v, nil
 }
 
-// c13Key: stable signature of the failing situation, by root cause where it is known
+// c13Key: stable signature of the failing situation, by root cause where it is known. The
+// dict-page-crc-unverified-* keys are finding F4 (repaired by 5000be7): they fire again if a way to
+// the dictionary page stops comparing the checksum. crc-zero-omitted is the known finding F8.
 func c13Key(p c13Page, a c13Access, class string) string {
 	kind := p.Kind
 	if kind != "dict" {
